@@ -7,7 +7,8 @@ Import ListNotations.
 Definition sort_le (s : sorter) (a b : data) : bool := cmp_le (sort_cmp s a b).
 
 (** the domain on which Ord is a total preorder: every cell, and every key
-    value that evaluates, has its integers within +-2^53 *)
+    value that evaluates, is made of well-formed numbers (any integer, any
+    well-formed double: [small_ints], Value_proofs.v) *)
 Definition row_ok (keys : list expr) (d : data) : Prop :=
   Forall (fun kv => small_ints (snd kv) = true) d /\
   Forall (fun k => match eval k d with Ok v => small_ints v = true | _ => True end) keys.
